@@ -13,8 +13,9 @@ from . import markup_lib as ml
 from .para_lib import chars, cps
 from .tlc import make_cfg, run_tlc
 
-WORDS = ["ab", "a", "ba", "aab", "c d", "x<y", "q&r", "é", "中", "it's", "two  spaces", "tab\there", "nl\nhere", " lead", "trail "]
-NEWS = ["", "x", " ", "  ", "\t", "a\nb", "x  y", " z ", "éa", "&<"]
+WORDS = ["ab", "a", "ba", "aab", "c d", "x<y", "q&r", "é", "中", "it's", "two  spaces", "tab\there", "nl\nhere", " lead", "trail ",
+         "a\u00a0b", "wide\u2003 gap", "thin\u202fa"]      # blanks of Unicode that are not XML white space: ordinary characters
+NEWS = ["", "x", " ", "  ", "\t", "a\nb", "x  y", " z ", "éa", "&<", "n\u00a0b", "\u2003 "]
 REGEXES = ["a+", "[ab]", "a|b", "ab?", "^a", "b$", "[a-c]+", r"\s", "a.", r"\w+", "(a)(b)?"]
 
 
@@ -90,8 +91,8 @@ def event(seed: int) -> list:
             first = tgt.search_first(rx)
             pos = tgt.search(rx)
             ev["found"] = found
-            ev["first_ok"] = (first is None and not found) or (first is not None and found and list(first) == [found[0]["s"], found[0]["e"]] and pos == first[0])
-            ev["match_ok"] = tgt.match(rx) == bool(found)
+            ev["first_ok"] = bool((first is None and not found) or (first is not None and found and list(first) == [found[0]["s"], found[0]["e"]] and pos == first[0]))
+            ev["match_ok"] = bool(tgt.match(rx) == bool(found))
             # the matched texts, as Python's re finds them in the element's own text
             ev["expect"] = [[m.start(), m.end()] for m in re.finditer(rx, own)]
     except Exception as ex:  # noqa: BLE001
